@@ -186,3 +186,47 @@ import procinv_util as _pv8
 MODULE = _pv8.listext_module("C12")
 THEOREMS = THEOREMS + [t for t in _pv8.LISTEXT_LAWS + _pv8.LISTEXT["C12"] if t not in THEOREMS]
 META["note"] = META["note"] + _pv8.LISTEXT_NOTE
+
+
+# ROUND 10 (work package wp14-prepare): prepare_eval re-establishes the machine invariant — JobsOk discharged
+THEOREMS = THEOREMS + [t for t in [
+    "Marwood.Lemmas.Good.prepare_vmOkP",
+    "Marwood.Lemmas.Good.prepare_vmOkP_idle",
+    "Marwood.Lemmas.Good.instSteps_all",
+    "Marwood.Lemmas.Good.instSteps_codePlain",
+    "Marwood.Lemmas.Good.instSteps_allocs",
+    "Marwood.Lemmas.Good.IdleOk.installs",
+    "Marwood.Lemmas.Good.IdleOk.gc",
+    "Marwood.Lemmas.Good.idleOk_runEval",
+    "Marwood.Lemmas.Good.histInstalls_ok",
+    "Marwood.Lemmas.Good.Sess.prepend",
+    "Marwood.Lemmas.Good.histInstalls_session",
+    "Marwood.Proofs.C12.history_capacity_bounded_installs",
+    "Marwood.Proofs.C12.history_jobs_ok_installs",
+    "Marwood.Proofs.C12.history_capacity_bounded_installs_listExt",
+    "Marwood.Proofs.C12.history_jobs_ok_installs_listExt",
+] if t not in THEOREMS]
+MODULE = (MODULE if isinstance(MODULE, list) else [MODULE]) + ["Marwood.Lemmas.ListExtPrepare"]
+META["note"] = META["note"] + (
+    " ROUND 10 (prepare_eval re-establishes the invariant; Lemmas/Prepare*.lean): history_capacity_bounded_machine asked "
+    "VmOkP of EVERY state in which a job starts (JobsOk), because runHistory takes each entry lambda as given. The "
+    "relation Installs e fuel s s' entry (Lemmas/PrepareDefs.lean) describes what the compiler and loader inside "
+    "prepare_eval do to the concrete machine: registers and stack unchanged, the heap grows by allocator steps "
+    "(cput/putNew exactly as the instruction model allocates: free-list head or growth, 2-bit map) of (i) lambda cells "
+    "that are Enc-loadings of code objects of the compiler model's compileRunnable e fuel, (ii) data cells of quoted "
+    "data (pairs, address-free atoms, vectors), (iii) newly interned symbols and new Undefined global slots (the "
+    "allocation of the finding C12-undefined-global-binding), each step with its references already allocated and no "
+    "value position designating entry code; InstallsGarbage (a rejected form: the same steps with arbitrary code "
+    "objects satisfying the clauses the invariants state of every lambda cell, followed by the collection of the Err "
+    "arm). THEOREM prepare_vmOkP: VmOkP of an idle state (sp = 0) + Installs + the size bound => VmOkP of the state the "
+    "evaluation starts in (GoodI: WFHeap/Plain/LamAll/EnvOk of the heap and allocated roots; WF-stack from WFS.initial "
+    "with the entry lambda verified ENTRY code by T04.6; CInvG IsValue via compiled_lambda_clauses; PInv: a new lemma "
+    "cput_hp_any for allocating code cells, cellPF_congr). history_capacity_bounded_installs: the C12 bound for the "
+    "history relation HistInstalls (prepare_eval as a step of its own, accepted and rejected forms) with VmOkP and "
+    "CodePlain of the INITIAL state only; the loader's allocations (<= 1 per step, instSteps_allocs) are absorbed by "
+    "the block in which the evaluation starts (Sess.prepend), so E now bounds builtin AND loader allocations per "
+    "block. Left as hypotheses: the laws of the unmodelled builtins, RecSized (heaps <= 2^62 cells), and — carried by "
+    "the stream prepare-installs of C07, not proved — that the real prepare_eval is related by Installs (executable "
+    "checker installsB, proved sound: installsB_sound). history_capacity_bounded_installs_listExt / history_jobs_ok_installs_listExt "
+    "(Lemmas/ListExtPrepare.lean): the same at the 17 real builtins of Vm/ListExt.lean, with no hypothesis about "
+    "builtins and no per-job invariant hypothesis.")
